@@ -293,3 +293,9 @@ def authorize2_returns_the_better_level(free, client, key):
         assert keys == [FREE_ACCESS_KEY]
     else:
         assert keys[1] == key and len(keys) <= 3
+
+
+ASSUMPTIONS = [
+    "asyncio is trusted behind the contract stubs: a cancelled task/future does not continue, asyncio.timeout cancels what it guards, locks are mutually exclusive, queues are FIFO, tasks switch only at awaits; interleavings inside one await are represented by 'the awaited object completes with any admissible value, times out, or the connection closes'",
+    "the bus is represented by contract stubs of xknx.management with bounded numbers of simultaneous responders (<= 3 broadcast answers, <= 2 devices in programming mode)",
+]
